@@ -138,9 +138,11 @@ func decodeBinaryValue(reader ByteRuneReader, flag int32) ([]byte, error) {
 		if err != nil {
 			return nil, err
 		}
-		if newLength < length {
+		// every chunk is read with its own declared length (it may be longer than the first one)
+		if newLength > cap(buf) {
+			buf = make([]byte, newLength)
+		} else {
 			buf = buf[:newLength]
-			length = newLength
 		}
 	}
 
